@@ -593,11 +593,9 @@ pub fn check_text(ctx: &mut Ctx, rep: &mut Report, category: &str, text: &str, e
 
     // ---- totality
     if let Real::Panic(p) = &real {
-        let key = if p.contains("lambda_ast_lexer.rs") && p.contains("not a char boundary") { Some("parse-panic-non-ascii-lens") } else { None };
-        let mut f = json!({"why": format!("air_parser::parse panicked: {p}"), "input": {"text": text}, "category": category});
-        if let Some(k) = key { f["finding_key"] = json!(k); }
-        rep.stat(&format!("panic/{}", key.unwrap_or("UNEXPLAINED")));
-        report_failure(rep, f);
+        // no text may panic: always a violation (the lens-lexer panic on non-ASCII field names was repaired in 5981066)
+        rep.stat("panic/UNEXPLAINED");
+        report_failure(rep, json!({"why": format!("air_parser::parse panicked: {p}"), "input": {"text": text}, "category": category}));
     }
     // ---- direct oracle on accepted scripts
     if let Real::Ok { ast, span_mismatch, vars } = &real {
